@@ -265,6 +265,9 @@ def run(ctx):
         for i in range(nprog):
             r = random.Random(ctx.rng.getrandbits(48))
             yields = r.random() < 0.2
+            if i % 8 == 7:
+                yield gen.gen_loop_shape(r)
+                continue
             p, src = gen.gen_program(r, profile(r, yields))
             yield p, src, (["-fyield-support"] if yields else [])
     st = validate(ctx, progs(), levels, quick, "c01", "c01_compiled_trace_is_a_reading", "Props.C01", 18 if quick else 90)
